@@ -209,6 +209,16 @@ func VerifC08Len() {
 	vlen := verifrt.SymIntIn("vlen", verifrt.Bound("vlo", 65534), verifrt.Bound("vhi", 65537))
 	key := strings.Repeat("k", klen)
 	val := strings.Repeat("v", vlen)
+	if verifrt.Bound("wide", 0) == 1 {
+		// the length fields count bytes: keys and values of two-byte characters reach the
+		// limits at half the number of characters
+		val = "v"
+		key = strings.Repeat("\u0436", verifrt.SymIntIn("kchars", 126, 129))
+		if verifrt.Choose("wide-value", 2) == 1 {
+			key = "k"
+			val = strings.Repeat("\u0436", verifrt.SymIntIn("vchars", 32766, 32769))
+		}
+	}
 	if len(key) > 255 {
 		verifrt.Tag("key-longer-than-255")
 	}
